@@ -139,7 +139,19 @@ func (s *Shape) Build() *bt.Tx {
 		defer func() { arena = append(arena, "ARENA-TAIL-GUARD"...) }()
 	}
 	scripts := map[string]*bscript.Script{}
+	emptyN := 0
 	script := func(b []byte) *bscript.Script {
+		if len(b) == 0 && !s.OneObject && !s.Shared {
+			// the three spellings of an empty script take turns: a non-nil empty slice, a
+			// nil slice behind the pointer (new(bscript.Script)), bscript.NewFromBytes(nil)
+			emptyN++
+			switch (emptyN + len(s.Ins) + len(s.Outs)) % 3 {
+			case 1:
+				return new(bscript.Script)
+			case 2:
+				return bscript.NewFromBytes(nil)
+			}
+		}
 		if !s.OneObject {
 			return bscript.NewFromBytes(carve(b))
 		}
